@@ -28,7 +28,7 @@ func otherName(k int64) int64 { return (k + 1 + 2) % nNames }
 func nameOf(s string) int64 { return nameKey(s) }
 
 func (g *Gen) scenario(p *Pool) []Op {
-	switch g.r.below(28) {
+	switch g.r.below(30) {
 	case 0, 1:
 		return g.scBusStatic(p)
 	case 2, 3:
@@ -55,8 +55,10 @@ func (g *Gen) scenario(p *Pool) []Op {
 		return g.scClone(p)
 	case 24, 25:
 		return g.scBulkSent(p)
-	default:
+	case 26, 27:
 		return g.scResize(p)
+	default:
+		return g.scEnumMin(p)
 	}
 }
 
@@ -388,12 +390,32 @@ func (g *Gen) scSizes(p *Pool) []Op {
 
 // badArgs: a scripted operation whose receiver no longer is what the script assumed
 func badArgs(p *Pool, o Op) bool {
-	if len(o.A) == 0 {
+	if len(o.A) == 0 || (len(o.Name) > 3 && o.Name[:3] == "New") { // constructors take names and numbers, not handles
 		return false
 	}
 	e := p.get(o.A[0])
 	if e == nil {
 		return true
+	}
+	kindOf := func(i int) Kind {
+		if i < len(o.A) {
+			if x := p.get(o.A[i]); x != nil {
+				return x.K
+			}
+		}
+		return Kind(-1)
+	}
+	switch o.Name {
+	case "EvalUpdateIndex", "EvalUpdateName":
+		return e.K != KEval
+	case "EnumAddValue":
+		return e.K != KEnum || (len(o.A) > 1 && o.A[1] != 0 && kindOf(1) != KEval)
+	case "EnumRemoveValue", "EnumRemoveAllValues", "EnumSetMinSize", "CloneEnum":
+		return e.K != KEnum
+	case "NewEnumSignal":
+		return false
+	case "MsgInsertSignal", "MsgAppendSignal":
+		return e.K != KMsg || (len(o.A) > 1 && o.A[1] != 0 && kindOf(1) != KSig)
 	}
 	switch {
 	case len(o.Name) > 3 && o.Name[:3] == "Std":
